@@ -13,22 +13,23 @@ ALL = "--all" in sys.argv
 ids = [a for a in sys.argv[1:] if "/" in a] or sorted(os.path.join(a, k) for a in os.listdir(S) if os.path.isdir(os.path.join(S, a)) for k in sorted(os.listdir(os.path.join(S, a))) if os.path.isdir(os.path.join(S, a, k)))
 resp = os.path.join(S, "RESULTS.json")
 results = json.load(open(resp)) if os.path.exists(resp) else {}
-def sh(cmd): return subprocess.run(cmd, shell=True, stdout=subprocess.PIPE, stderr=subprocess.STDOUT, text=True)
-assert sh("git -C /repo status --porcelain --untracked-files=no").stdout.strip() == "", "/repo has local modifications"
+TREE = os.environ.get("MUT_TREE", "/repo")   # default: apply to /repo itself and undo; MUT_TREE=<scratch worktree> leaves /repo alone (for runs in parallel with other work)
+def sh(cmd): return subprocess.run(cmd, shell=True, stdout=subprocess.PIPE, stderr=subprocess.STDOUT, text=True, errors="replace")
+assert sh("git -C %s status --porcelain --untracked-files=no" % TREE).stdout.strip() == "", "/repo has local modifications"
 for rel in ids:
     area = rel.split("/")[0].rstrip("2")
-    r = sh("git -C /repo apply %s" % os.path.join(S, rel, "patch.diff"))
+    r = sh("git -C %s apply %s" % (TREE, os.path.join(S, rel, "patch.diff")))
     if r.returncode != 0:
-        print("%-12s patch does not apply: %s" % (rel, r.stdout.strip()[:150])); sh("git -C /repo checkout -- ."); results[rel] = dict(applies=False); continue
+        print("%-12s patch does not apply: %s" % (rel, r.stdout.strip()[:150])); sh("git -C %s checkout -- ." % TREE); results[rel] = dict(applies=False); continue
     out = {}
     try:
         for prop in (["C%02d" % i for i in range(1, 21)] if ALL else AREA.get(area, [])):
-            t0 = time.time(); r = sh("cd %s && VERIF_EVIDENCE_DIR=%s/build/evidence_mutants ./vcheck %s quick" % (HERE, HERE, prop))
+            t0 = time.time(); r = sh("cd %s && VERIF_REPO=%s VERIF_EVIDENCE_DIR=%s/build/evidence_mutants ./vcheck %s quick" % (HERE, TREE, HERE, prop))
             sig = [l.strip() for l in r.stdout.splitlines() if l.strip().startswith("signature=")]
             out[prop] = dict(exit=r.returncode, first=(sig[0][:300] if sig else ""), wall_s=round(time.time() - t0, 1))
             if r.returncode != 0: print("%-12s %s ALARM exit=%d %s" % (rel, prop, r.returncode, (sig[0][:220] if sig else r.stdout.strip().splitlines()[-1][:220])), flush=True)
     finally:
-        sh("git -C /repo checkout -- .")
+        sh("git -C %s checkout -- ." % TREE)
     prev = results.get(rel, {}).get("checks", {}) if ALL else {}
     prev.update(out); out = prev
     results[rel] = dict(applies=True, checks=out, silent=all(v["exit"] == 0 for v in out.values()))
